@@ -171,9 +171,37 @@ def layout(ctx, facts):
         ctx.violation("LAYOUT", MT + "new", "node layout", hirq.loc(fn), "last_index = %s, vlen = %s; expected 2m-2 and last_index+1" % (li, vl))
 
 
+def sentinel_rule(ctx, facts):
+    """SENTINEL: the value of a slot nobody wrote is the maximum of ITS OWN type: every impl of MaxValue::get_max for T returns T::MAX
+    (or T::INFINITY / Bounded::max_value() for T). A smaller sentinel refuses every offered value between it and T::MAX."""
+    import re as _re
+    ctx.rule("SENTINEL", "every `impl MaxValue for T` returns the maximum of T itself from get_max (T::MAX, T::INFINITY or T's Bounded::max_value): "
+                         "an empty slot must compare above every value that can be offered")
+    n = 0
+    for fid, fn in facts.fns.items():
+        m_ = _re.match(r"^<(\w+) as maxvaluetrack::MaxValue>::get_max$", fid)
+        if not m_ or "hir" not in fn:
+            continue
+        n += 1
+        ty = m_.group(1)
+        R = resolver_of(fn)
+        body = fn["hir"]
+        e = body["expr"] if body["k"] == "Block" and "expr" in body and not [s_ for s_ in body["stmts"] if s_["k"] != "Let"] else body
+        v = nf.nf(e, True, res=R)      # an identity cast (`f32::MAX as f32`) is dropped; a widening one leaves the narrower type's constant
+        ok = _re.match(r"^core::(num|f32|f64)::<impl %s>::(MAX|INFINITY)$" % ty, v) or v in ("std::%s::MAX" % ty, "core::%s::MAX" % ty, "std::%s::INFINITY" % ty) \
+            or _re.match(r"^(<%s as )?num(_traits)?::(bounds::)?Bounded(>)?::max_value\(\)$" % ty, v)
+        if ok:
+            ctx.ok("SENTINEL", fid, "get_max() = %s" % v, hirq.loc(fn))
+        else:
+            ctx.violation("SENTINEL", fid, "empty-slot value", hirq.loc(fn),
+                          "`impl MaxValue for %s` returns `%s`, expected %s::MAX: values between the two offered to an empty slot are refused" % (ty, v[:80], ty))
+    ctx.floor("C15 MaxValue impls", n, 7)
+
+
 def run(ctx, facts):
     for k, v in RULES.items():
         ctx.rule(k, v)
+    sentinel_rule(ctx, facts)
     ctx.extra["explanation"] = (
         "C15 as a whole is an inductive invariant over array contents and is NOT proved. Decided are its structural clauses, each a "
         "necessary condition: the accessor shapes, the shape of one propagation step of update (leaf write only if strictly smaller; "
